@@ -37,7 +37,7 @@ def main(tier):
                                  'the regex engine is the reference model mirsym/rexmodel.py, not the regex crate',
                                  'tree-sitter / tag scanner replaced as in C10; ASCII only',
                                  'is_content_modified and _is_start_tag_modified are free booleans: the verdict must not depend on them (C02)'],
-                    must_cover=['clean', 'reported', 'numeric', 'mode:trim', 'mode:group', 'mode:plain', 'rule:asc', 'rule:desc'])
+                    must_cover=['clean', 'reported', 'two violating blocks in one file', 'numeric', 'mode:trim', 'mode:group', 'mode:plain', 'rule:asc', 'rule:desc'])
 
 
 if __name__ == '__main__':
